@@ -62,7 +62,8 @@ def residue_charges(r, opts):
     return out, k == len(pqr), sum(p["charge"] for p in pqr)
 
 
-def check_run(r, info, ff, opts, tag, n_ends=None, cyclic=False):
+def check_run(r, info, ff, opts, tag, n_ends=None, cyclic=False,
+              extra_ends=0):
     from pdb2pqr import aa, na
 
     viol, events, cells = [], {}, set()
@@ -97,7 +98,7 @@ def check_run(r, info, ff, opts, tag, n_ends=None, cyclic=False):
         names = [a.name for a in res.atoms]
         if isinstance(res, aa.Amino):
             position = inf["position"]
-            if cyclic:
+            if cyclic and not inf.get("linear"):
                 position = "mid"
             state = corpus.state_ref(inf["input"], position, names,
                                      neutraln=neutraln, neutralc=neutralc)
@@ -183,6 +184,7 @@ def check_run(r, info, ff, opts, tag, n_ends=None, cyclic=False):
                      {"total": round(total, 4), "expected": expected_total}))
     if n_ends is not None:
         want = 0 if cyclic else n_ends // 2
+        want += extra_ends
         if n_nterm != want or n_cterm != want:
             viol.append((f"C02/{tag}/{ff}/terminus-count",
                          {"n_term": n_nterm, "c_term": n_cterm,
@@ -257,17 +259,41 @@ def run_case(case):
         tag = f"strand:len{len(case['seq'])}:{case['naming']}"
     elif mode == "cyclic":
         atoms, info, _d0 = cyclic_atoms(case["d"])
+        other = case.get("other")
+        if other:
+            # a second, linear chain whose id sorts before / after the ring's
+            lin = build.build_peptide(["SER", "ILE", "SER"], chain="L",
+                                      start=101, origin=(40.0, 0.0, 0.0))
+            if other == "after":
+                for a in atoms:
+                    a["chain"] = "A"
+                for i_ in info:
+                    i_["chain"] = "A"
+                atoms = atoms + lin
+            else:
+                for a in atoms:
+                    a["chain"] = "Z"
+                for i_ in info:
+                    i_["chain"] = "Z"
+                atoms = lin + atoms
+            for k, nm in enumerate(["SER", "ILE", "SER"]):
+                info.append({"kind": "aa", "input": nm, "chain": "L",
+                             "res_seq": 101 + k, "icode": "",
+                             "position": ("n", "mid", "c")[k],
+                             "linear": True})
         # the file coordinates carry 3 decimals: recompute the distance
+        ring = [i_ for i_ in info if not i_.get("linear")]
         n1 = next(a for a in atoms if a["name"] == "N"
-                  and a["res_seq"] == info[0]["res_seq"])
+                  and a["res_seq"] == ring[0]["res_seq"])
         c14 = next(a for a in atoms if a["name"] == "C"
-                   and a["res_seq"] == info[-1]["res_seq"])
+                   and a["res_seq"] == ring[-1]["res_seq"])
         d = float(np.linalg.norm(np.round(n1["xyz"], 3) - np.round(c14["xyz"], 3)))
         cyclic = d < 1.35
         if abs(d - 1.35) < 2e-3:
             return res  # on the threshold within file precision: not decided
         text = build.pdb_text(atoms)
-        tag = "cyclic" if cyclic else "open-ring"
+        tag = ("cyclic" if cyclic else "open-ring") + (
+            f"+linear-{case['other']}" if case.get("other") else "")
         n_ends = 2
     else:
         raise ValueError(mode)
@@ -275,7 +301,9 @@ def run_case(case):
     if not r.ok:
         res["events"][f"run-failed:{tag}:{ff}"] = 1
         return res
-    viol, events, cells = check_run(r, info, ff, opts, tag, n_ends, cyclic)
+    viol, events, cells = check_run(
+        r, info, ff, opts, tag, n_ends, cyclic,
+        extra_ends=1 if (mode == "cyclic" and case.get("other")) else 0)
     res["events"] = events
     res["nontrivial"] = sorted(cells) + [f"case:{tag}:{case.get('x', '')}"]
     seen = set()
@@ -310,7 +338,7 @@ def enumerate_cases(tier, seed):
             for x in T.AMINO:
                 cases.append({"mode": "layout", "ff": ff, "layout": layout,
                               "x": x})
-        for layout in ("same_id_oxt", "two", "blank_ter"):
+        for layout in ("same_id_oxt", "two", "blank_ter", "blank_one_ter"):
             for x in ("ALA", "GLY", "LYS", "ASP"):
                 cases.append({"mode": "layout", "ff": ff, "layout": layout,
                               "x": x, "oxt": False})
@@ -325,4 +353,8 @@ def enumerate_cases(tier, seed):
         for d in (1.20, 1.30, 1.33, 1.346, 1.354, 1.36, 1.40, 1.60):
             cases.append({"mode": "cyclic", "ff": ff, "d": d,
                           "opts": ["--noopt"]})
+        for d in (1.33, 1.40):
+            for other in ("before", "after"):
+                cases.append({"mode": "cyclic", "ff": ff, "d": d,
+                              "other": other, "opts": ["--noopt"]})
     return cases
